@@ -380,7 +380,7 @@ def scenario_strategy():
 
     @st.composite
     def case(draw):
-        kind = draw(st.sampled_from(["selfref-arg", "plain-and-paste", "comma-from-arg", "selfref-arg", "plain-and-paste"]))
+        kind = draw(st.sampled_from(["selfref-arg", "plain-and-paste", "comma-from-arg", "selfref-arg", "plain-and-paste", "name-as-arg"]))
         n1, n2 = draw(num), draw(num)
         tab = []
         if kind == "selfref-arg":
@@ -398,6 +398,13 @@ def scenario_strategy():
             tab.append(M("G", ["a"], draw(st.sampled_from([["a"], ["a", "v"], ["F", "(", "a", ")"]]))))
             arg = ["X", "(", n2, ")"] if shape == "fn-self" else ["X"]
             inv = draw(st.sampled_from([["F", "("] + arg + [")"], ["F", "(", "F", "("] + arg + [")", ")"], ["F", "("] + arg + [")"] + arg, ["G", "(", "F", "("] + arg + [")", ")"], ["F", "(", n1] + arg + [")"]]))
+        elif kind == "name-as-arg":
+            # a function-like macro name travels through an argument and is applied to tokens that follow
+            tab.append(M("G", ["a"], draw(st.sampled_from([["a", "+", n1], ["(", "a", ")"], ["a", "a"]]))))
+            tab.append(M("F", ["a", "b"], draw(st.sampled_from([["a", "(", "b", ")"], ["a", "(", "b", ")", "+", "a", "(", n2, ")"], ["b", "a"]]))))
+            tab.append(M("H", ["a"], draw(st.sampled_from([["a"], ["a", "w"]]))))
+            tab.append(M("X", None, draw(st.sampled_from([["G"], ["H"], ["G", "(", n1, ")"]]))))
+            inv = draw(st.sampled_from([["F", "(", "G", ",", n1, ")"], ["H", "(", "G", ")", "(", n2, ")"], ["H", "(", "X", ")", "(", n2, ")"], ["F", "(", "H", ",", "G", ")", "(", n1, ")"], ["F", "(", "X", ",", n2, ")"], ["H", "(", "H", ")", "(", "G", ")", "(", n1, ")"]]))
         elif kind == "plain-and-paste":
             pieces = draw(st.lists(st.sampled_from([["a"], ["a", "##", "0"], ["a", "##", "_T"], ["#", "a"], ["+"], ["G", "(", "a", ")"], ["x", "##", "a"], ["a"]]), min_size=2, max_size=4))
             tab.append(M("F", ["a"], [t for pc in pieces for t in pc]))
